@@ -213,7 +213,11 @@ impl JobServer {
             }
             None => None,
         };
-        let cheats = if max_jobs == 0 {
+        // Debts are settled in the jobserver whose tokens they stand for: a
+        // process that starts a jobserver of its own (no usable MAKEFLAGS, or
+        // its own -j) starts a cheat pipe of its own as well, whatever
+        // REDO_CHEATFDS it may have inherited along another way.
+        let cheats = if max_jobs == 0 && token_fds.is_some() {
             match env::var(JobServer::ENV_CHEATFDS) {
                 Ok(v) => v,
                 Err(VarError::NotPresent) => String::new(),
